@@ -612,8 +612,8 @@ def strat_long(env, cfg):
     @st.composite
     def s(draw):
         op = draw(st.sampled_from(LONG_OPS))
-        bits = draw(st.one_of(st.sampled_from([W * DIGS - 1, W * DIGS, W * DIGS + 1, W * DIGS + W, top - W, top - 1, top]),
-                              st.integers(W * DIGS - 8, top)))
+        cand = [b for b in (W * DIGS - 1, W * DIGS, W * DIGS + 1, W * DIGS + W, top - W, top - 1, top) if 2 <= b <= top]
+        bits = draw(st.one_of(st.sampled_from(cand), st.integers(max(2, min(W * DIGS, top) - 8), top)))
         big = draw(ints.uniform(1 << (bits - 1), (1 << bits) - 1))
         if draw(st.integers(0, 5)) == 0:
             big = (1 << bits) - 1 - draw(st.integers(0, 3))
@@ -717,7 +717,8 @@ def run_long(env, cfg, case):
                             got=got, want=want)
     check_probe(res, sp, what)
     beyond = big.bit_length() > W * I["DIGS"]
-    return beyond, ["op:" + op, "long:%s" % ("beyond-precision" if beyond else "within"),
+    at_limit = big.bit_length() >= W * min(I["DIGS"], I["SIZE"] - 1) - 8
+    return beyond or at_limit, ["op:" + op, "long:%s" % ("beyond-precision" if beyond else "within"),
                     "outcome:%s" % ("error" if c.errored else "value")]
 
 
